@@ -21,6 +21,7 @@ import (
 // ----------------------------------------------------------------------------
 
 type Sym struct {
+	frame  *frame // for "func": the frame in which the closure value was created
 	Op     string // lit int concat call field elem param global phi cycle opaque extract rangekey rangeval nil cell free
 	Lit    string
 	Name   string
@@ -78,6 +79,18 @@ func (s *Symbolizer) frameOf(c *Ctx) *frame {
 		if mc, ok := call.Value.(*ssa.MakeClosure); ok {
 			for _, b := range mc.Bindings {
 				fr.free = append(fr.free, s.sym(pf, b))
+			}
+		}
+		fr.parent = pf
+	} else if c.Parent != nil && c.CallNode != nil && c.CallNode.Call != nil && c.Callback {
+		// callback of a modelled higher-order function: parameters unbound, free variables bound by the
+		// closure that was passed as an argument
+		pf := s.frameOf(c.Parent)
+		for _, a := range c.CallNode.Call.Args {
+			if mc, ok := a.(*ssa.MakeClosure); ok && mc.Fn == ssa.Value(c.Fn) {
+				for _, b := range mc.Bindings {
+					fr.free = append(fr.free, s.sym(pf, b))
+				}
 			}
 		}
 		fr.parent = pf
@@ -161,7 +174,7 @@ func (s *Symbolizer) sym1(fr *frame, v ssa.Value) *Sym {
 		return &Sym{Op: "func", Name: FuncName(x), Callee: x}
 	case *ssa.MakeClosure:
 		f, _ := x.Fn.(*ssa.Function)
-		return &Sym{Op: "func", Name: FuncName(f), Callee: f}
+		return &Sym{Op: "func", Name: FuncName(f), Callee: f, frame: fr, Val: x}
 	case *ssa.Phi:
 		out := &Sym{Op: "phi"}
 		for _, e := range x.Edges {
@@ -295,7 +308,16 @@ func (s *Symbolizer) load(fr *frame, addr ssa.Value) *Sym {
 	switch a := addr.(type) {
 	case *ssa.FieldAddr:
 		st := deref(a.X.Type()).Underlying().(*types.Struct)
-		return &Sym{Op: "field", Name: typeName(a.X.Type()) + "." + st.Field(a.Field).Name(), Args: []*Sym{s.sym(fr, a.X)}}
+		base := s.sym(fr, a.X)
+		if base.Op == "alloc" {
+			// a struct allocated locally (composite literal): the field's value is what was stored into it
+			if al, ok := base.Val.(*ssa.Alloc); ok {
+				if v := s.fieldOfLocal(fr, al, a.Field); v != nil {
+					return v
+				}
+			}
+		}
+		return &Sym{Op: "field", Name: typeName(a.X.Type()) + "." + st.Field(a.Field).Name(), Args: []*Sym{base}}
 	case *ssa.IndexAddr:
 		return &Sym{Op: "elem", Args: []*Sym{s.sym(fr, a.X), s.sym(fr, a.Index)}}
 	case *ssa.Global:
@@ -382,6 +404,14 @@ func (s *Symbolizer) call(fr *frame, c *ssa.Call) *Sym {
 			return &Sym{Op: "call", Name: "invoke:" + cc.Method.Name(), Args: append([]*Sym{recv}, args...)}
 		}
 		fv := s.sym(fr, cc.Value)
+		if fv.Op == "func" && fv.Val != nil {
+			if m, recv := s.boundMethod(fv.frame, fv.Val); m != nil {
+				return &Sym{Op: "call", Name: FuncName(m), Args: append([]*Sym{recv}, args...), Callee: m}
+			}
+			if fv.Callee != nil && len(fv.Callee.FreeVars) == 0 {
+				return &Sym{Op: "call", Name: FuncName(fv.Callee), Args: args, Callee: fv.Callee}
+			}
+		}
 		return &Sym{Op: "call", Name: "dyn", Args: append([]*Sym{fv}, args...)}
 	}
 	name := f.String()
@@ -696,4 +726,61 @@ func (y *Sym) HasOpaque() bool {
 		return !bad
 	})
 	return bad
+}
+
+// fieldOfLocal: the value stored into field idx of a locally allocated struct (nil when it is not a single
+// direct store in the allocating function).
+func (s *Symbolizer) fieldOfLocal(fr *frame, al *ssa.Alloc, idx int) *Sym {
+	owner := al.Parent()
+	of := fr
+	for of != nil && of.fn != owner {
+		of = of.parent
+	}
+	if of == nil {
+		of = &frame{fn: owner}
+	}
+	var found *Sym
+	n := 0
+	for _, b := range owner.Blocks {
+		for _, in := range b.Instrs {
+			st, ok := in.(*ssa.Store)
+			if !ok {
+				continue
+			}
+			fa, ok := st.Addr.(*ssa.FieldAddr)
+			if !ok || fa.X != ssa.Value(al) || fa.Field != idx {
+				continue
+			}
+			if _, basic := st.Val.Type().Underlying().(*types.Basic); !basic {
+				return nil // only immutable scalar fields (strings, numbers) are looked through
+			}
+			n++
+			found = s.sym(of, st.Val)
+		}
+	}
+	if n == 1 {
+		return found
+	}
+	return nil
+}
+
+// boundMethod: a function value that is a bound-method closure (x.M) resolves to the method and its receiver.
+func (s *Symbolizer) boundMethod(fr *frame, v ssa.Value) (*ssa.Function, *Sym) {
+	mc, ok := v.(*ssa.MakeClosure)
+	if !ok {
+		return nil, nil
+	}
+	f, ok := mc.Fn.(*ssa.Function)
+	if !ok || len(mc.Bindings) != 1 || !strings.HasSuffix(f.Name(), "$bound") {
+		return nil, nil
+	}
+	obj, ok := f.Object().(*types.Func)
+	if !ok {
+		return nil, nil
+	}
+	m := s.P.SSA.FuncValue(obj)
+	if m == nil {
+		return nil, nil
+	}
+	return m, s.sym(fr, mc.Bindings[0])
 }
